@@ -6,6 +6,9 @@ mod gen;
 mod rng;
 mod p15;
 mod p16;
+mod p08;
+mod props;
+mod tables;
 
 use serde_json::{json, Value};
 use std::collections::HashSet;
@@ -94,11 +97,21 @@ fn main() {
     // quiet panic hook: the location is recorded by the code that catches the unwind
     std::panic::set_hook(Box::new(|info| {
         let loc = info.location().map(|l| format!("{}:{}", l.file(), l.line())).unwrap_or_default();
+        if !IN_GUARD.with(|g| g.get()) {
+            eprintln!("harness panic: {} @ {}", info, loc);
+        }
         LAST_PANIC.with(|p| *p.borrow_mut() = Some(loc));
     }));
     let batch = match args.id.as_str() {
         "C15" => p15::run(&args),
         "C16" => p16::run(&args),
+        "C08" => p08::run08(&args),
+        "C09" => p08::run09(&args),
+        "C10" => p08::run10(&args),
+        "tables" => {
+            tables::dump(&args.out);
+            return;
+        }
         other => {
             eprintln!("unknown property {}", other);
             std::process::exit(2);
@@ -144,12 +157,16 @@ fn main() {
 }
 
 thread_local! {
+    pub static IN_GUARD: std::cell::Cell<bool> = std::cell::Cell::new(false);
     pub static LAST_PANIC: std::cell::RefCell<Option<String>> = std::cell::RefCell::new(None);
 }
 
 /// run f, turning a panic into Err(location)
 pub fn guarded<T>(f: impl FnOnce() -> T + std::panic::UnwindSafe) -> Result<T, String> {
-    match std::panic::catch_unwind(f) {
+    let prev = IN_GUARD.with(|g| g.replace(true));
+    let res = std::panic::catch_unwind(f);
+    IN_GUARD.with(|g| g.set(prev));
+    match res {
         Ok(v) => Ok(v),
         Err(e) => {
             let msg = e.downcast_ref::<String>().cloned().or_else(|| e.downcast_ref::<&str>().map(|s| s.to_string())).unwrap_or_default();
